@@ -140,7 +140,7 @@ func ruleCompositeTagAddress(ctx *Ctx, rule string) {
 	}
 	// srcAddr is a phi; one of its edges must be (l.off - 8) under the composite flag
 	found := false
-	for _, b := range f.Blocks {
+	for _, b := range frameBlocks(f) {
 		for _, in := range b.Instrs {
 			s := ""
 			if v, ok := in.(interface{ Name() string }); ok {
